@@ -107,6 +107,8 @@ func main() {
 		corrPhase(rep, seed, envInt("VERIF_MODELS", 200), os.Getenv("VERIF_CASES"))
 	case "race":
 		racePhase(rep, seed, envInt("VERIF_MODELS", 30), envInt("VERIF_OPS", 40), envInt("VERIF_ONLY", -1), os.Getenv("VERIF_SCRATCH"))
+	case "cold":
+		coldPhase(rep, seed, envInt("VERIF_MODELS", 3), envInt("VERIF_OPS", 25))
 	case "earlyret":
 		earlyRetPhase(rep, seed, envInt("VERIF_MODELS", 4), os.Getenv("VERIF_SCRATCH"))
 	default:
@@ -131,6 +133,7 @@ func snapPhase(rep *report, seed uint64, models, nops, only int) {
 		t := newOpTable(w)
 		roots := w.roots()
 		h0, cnt := snapshotHash(roots)
+		g0 := globalHashes(roots)
 		rep.counters["snap_models"]++
 		rep.counters["snap_fields"] += cnt
 		if w.hintOps > 0 {
@@ -158,6 +161,16 @@ func snapPhase(rep *report, seed uint64, models, nops, only int) {
 			}
 			if h1 != h0 {
 				field, detail := findSnapDiff(seed, idx, k, nops)
+				if field == "unreproduced" {
+					// first-use write to process-global state: name the variable
+					g1 := globalHashes(roots)
+					for name, h := range g1 {
+						if g0[name] != h {
+							field, detail = "global("+name+")", "package-level variable "+name+" of the library was written by a read-only operation (first use in the process; it does not repeat)"
+						}
+					}
+					g0 = g1
+				}
 				rep.fail("snapshot-write:"+field,
 					fmt.Sprintf("model=%d op#%d %s wrote shared state: %s (replay: VERIF_PHASE=snap VERIF_ONLY=%d)", idx, k, op.desc, detail, idx))
 				h0 = h1
@@ -201,6 +214,103 @@ func findSnapDiff(seed uint64, idx, k, nops int) (string, string) {
 		return changedField(before, after), d
 	}
 	return "unreproduced", "the write did not reproduce on the rebuilt model"
+}
+
+// ---------------------------------------------------------------- cold concurrent phase
+
+// coldPhase runs in a FRESH process and performs no read-only operation of the library before
+// the goroutines start: a lazily initialised table or cache (per object, or process-global such as
+// an indentation-string table grown on demand) is written for the first time WHILE other
+// goroutines read it, which is the only moment the race detector can see it.  Every model
+// contains the deep nesting of addDeepNesting (multiplexer > multiplexer > enum signal with
+// values) and every kind of entity; each goroutine starts with a deep String / export / save and
+// continues with the seeded mix.  The sequential reference is computed AFTERWARDS.
+func coldPhase(rep *report, seed uint64, models, nops int) {
+	const T = 8
+	rep.counters["gomaxprocs"] = runtime.GOMAXPROCS(0)
+	for idx := 0; idx < models; idx++ {
+		r := modelRng(seed^0xC01D, idx)
+		w := buildWorld(r, idx, true)
+		t := newOpTableCold(w)
+		roots := w.roots()
+		lists := make([][]roOp, T)
+		netIdx := t.byLab["net"][0]
+		stringOf := func(ri int) roOp {
+			rc := &t.recvs[ri]
+			for _, mi := range rc.methods {
+				if rc.v.Type().Method(mi).Name == "String" {
+					return roOp{recv: ri, method: mi, class: "String", desc: rc.label + ".String()", lazy: []int{}}
+				}
+			}
+			return t.genOp(r)
+		}
+		for g := 0; g < T; g++ {
+			gr := r.fork(uint64(g + 1))
+			var first roOp
+			switch g % 6 {
+			case 0, 1:
+				first = stringOf(netIdx)
+			case 2:
+				first = roOp{free: 2, desc: "ExportToMarkdown(net)", class: "ExportToMarkdown"}
+			case 3:
+				first = roOp{free: 3, recv: 7, desc: "SaveNetwork(net,enc=7)", class: "SaveNetwork"}
+			case 4:
+				b := gr.intn(len(w.buses))
+				first = roOp{free: 1, recv: b, desc: fmt.Sprintf("ExportBus(bus#%d)", b), class: "ExportBus"}
+			default:
+				ms := t.byLab["msg"]
+				first = stringOf(ms[len(ms)-1]) // the deep message is the last one
+			}
+			lists[g] = append(lists[g], first)
+			for k := 1; k < nops; k++ {
+				lists[g] = append(lists[g], t.genOp(gr))
+			}
+		}
+		h0, _ := snapshotHash(roots)
+		con := make([][]string, T)
+		start := make(chan struct{})
+		var wg sync.WaitGroup
+		for g := 0; g < T; g++ {
+			wg.Add(1)
+			go func(g int) {
+				defer wg.Done()
+				res := make([]string, 0, len(lists[g]))
+				<-start
+				for _, op := range lists[g] {
+					res = append(res, t.run(op))
+				}
+				con[g] = res
+			}(g)
+		}
+		close(start)
+		wg.Wait()
+		h1, _ := snapshotHash(roots)
+		rep.counters["cold_rounds"]++
+		rep.counters["race_ops"] += T * nops
+		if w.deep {
+			rep.counters["cold_rounds_with_deep_nesting"]++
+		}
+		if h1 != h0 {
+			rep.fail("cold-snapshot-changed", fmt.Sprintf("cold model=%d: shared state (model or package-level variables) differs after the first, concurrent, read-only use", idx))
+		}
+		// sequential reference AFTER the concurrent run
+		for g := 0; g < T; g++ {
+			for k, op := range lists[g] {
+				if seq := t.run(op); !sameResult(rep, seq, con[g][k]) {
+					kind := "concurrent-result:"
+					if strings.HasPrefix(seq, "PANIC:") || strings.HasPrefix(con[g][k], "PANIC:") {
+						kind = "concurrent-panic:"
+					}
+					rep.fail(kind+t.recvType(op)+"."+op.class,
+						fmt.Sprintf("cold model=%d goroutine=%d op#%d %s: concurrent (first use) %q, sequential afterwards %q", idx, g, k, op.desc, con[g][k], seq))
+				}
+			}
+		}
+		if idx == 0 {
+			rep.samples = append(rep.samples, fmt.Sprintf("cold model 0 (%s): 8 goroutines start with %s | %s | %s | %s | %s ; then the mix", w.desc,
+				lists[0][0].desc, lists[2][0].desc, lists[3][0].desc, lists[4][0].desc, lists[5][0].desc))
+		}
+	}
 }
 
 // ---------------------------------------------------------------- concurrent phase
